@@ -33,7 +33,7 @@ func (c03) Batches(tier string) int {
 }
 func (c03) Required(string) []string {
 	return []string{"compared", "ref.finally-on-1", "ref.finally-on-2", "ref.finally-on-3", "ref.finally-on-throw", "ref.finally-overrides", "ref.catch-entered",
-		"exit.ret@finally", "exit.brk@finally", "exit.cont@finally", "exit.throw@finally", "exit.ret@catch", "exit.throw@catch", "exit.rterr@try", "exit.callthrow@try", "history.3", "wrapper.1", "wrapper.2", "wrapper.3"}
+		"exit.ret@finally", "exit.brk@finally", "exit.cont@finally", "exit.throw@finally", "exit.ret@catch", "exit.throw@catch", "exit.rterr@try", "exit.callthrow@try", "history.3", "wrapper.1", "wrapper.2", "wrapper.3", "recursion_try_matrix"}
 }
 func (c03) Assumptions() []string {
 	return []string{"internal/ref implements ECMAScript try/catch/finally completion semantics as docs/error-handling.md states", "parser shared with the code under test"}
@@ -128,6 +128,29 @@ func (m c03) Run(c *core.Ctx) {
 				continue
 			}
 			m.one(c, tr, c03histories[(ti+int(c.Seed))%len(c03histories)], (ti/len(c03histories)+int(c.Seed))%4, ti%30011 == 0)
+		}
+	}
+	// recursion x try matrix (exhaustive in both tiers)
+	for ri, src := range gen.RecursionTryMatrix() {
+		idx++
+		if idx%c.NBatch != c.Batch {
+			continue
+		}
+		src := src
+		p := &Program{Src: src, Tags: []string{"recursion-try-matrix"}}
+		if !c.Begin(func() string { return src }) {
+			continue
+		}
+		ok, r := checkAgainstRef(c, "C03", p, nil, 100000)
+		if ok {
+			c.Count("recursion_try_matrix")
+			countFeatures(c, r.In, "ref.")
+			if r.In.FinallyAbrupt > 0 || r.In.Features["catch-entered"] > 0 {
+				c.Nontrivial(progHash(p))
+			}
+			if ri%97 == 0 {
+				c.Sample(c03case{Src: src})
+			}
 		}
 	}
 	// larger random trees
